@@ -6,6 +6,7 @@ package main
 import (
 	"fmt"
 	"go/token"
+	"go/types"
 	"sort"
 	"strings"
 
@@ -207,7 +208,11 @@ func ruleParseTime(c *Ctx) {
 	c.Rule("TS-FRAC", "the scale factor that is divided once per fraction digit is guarded inside the loop, so more than nine digits cannot drive it to zero and silently erase the fraction", 1)
 	{
 		found := false
-		for _, l := range loopsOf(fn) {
+		var scopeLoops []*Loop
+		for _, f := range ptScope(P, fn) {
+			scopeLoops = append(scopeLoops, loopsOf(f)...)
+		}
+		for _, l := range scopeLoops {
 			for b := range l.Blocks {
 				for _, ins := range b.Instrs {
 					div, ok := ins.(*ssa.BinOp)
@@ -262,7 +267,7 @@ func ruleParseTime(c *Ctx) {
 				l   *Loop
 			}
 			var accs []acc
-			for _, l := range loopsOf(fn) {
+			for _, l := range scopeLoops {
 				for b := range l.Blocks {
 					for _, ins := range b.Instrs {
 						add, ok := ins.(*ssa.BinOp)
@@ -341,40 +346,58 @@ func ruleParseTime(c *Ctx) {
 	c.Rule("TZ-SIGN", "a numeric zone is sign * (hours*3600 + minutes*60) seconds, hours and minutes being the digits around the colon, '+' east and '-' west", 3)
 	{
 		var gz *ssa.Call
-		for _, cs := range callsIn(fn) {
-			if cs.Static != nil && P.isModuleFunc(cs.Static) && cs.Value() != nil && len(cs.Common.Args) == 1 && strings.HasSuffix(typeKey(cs.Static.Signature.Results().At(0).Type()), "time.Location") {
-				gz = cs.Value()
+		zfn := fn // the function the zone suffix is parsed in: the parser itself or a helper of it
+		for _, f := range ptScope(P, fn) {
+			for _, cs := range callsIn(f) {
+				if cs.Static != nil && P.isModuleFunc(cs.Static) && cs.Value() != nil && zoneOffsetArg(cs.Value()) != nil {
+					// a thin wrapper only forwards its parameter: the call of interest computes the offset
+					if _, forwarded := zoneOffsetArg(cs.Value()).(*ssa.Parameter); forwarded && gz != nil {
+						continue
+					}
+					if gz != nil {
+						if _, prevForwarded := zoneOffsetArg(gz).(*ssa.Parameter); !prevForwarded {
+							continue
+						}
+					}
+					gz = cs.Value()
+					zfn = f
+				}
 			}
 		}
 		if c.Anchor(gz != nil, "zone lookup call in parseTime") {
-			off := gz.Call.Args[0]
-			// leaves: sign phi, and the two atoi results
-			var sign *ssa.Phi
+			off := zoneOffsetArg(gz)
+			// leaves: the two atoi results the offset is computed from
 			var leaves []*ssa.Extract
+			seenW := map[ssa.Value]bool{}
 			var walk func(v ssa.Value, d int)
 			walk = func(v ssa.Value, d int) {
-				if d > 10 {
+				if d > 12 || seenW[v] {
 					return
 				}
+				seenW[v] = true
 				switch y := v.(type) {
 				case *ssa.BinOp:
 					walk(y.X, d+1)
 					walk(y.Y, d+1)
+				case *ssa.UnOp:
+					walk(y.X, d+1)
 				case *ssa.Convert:
 					walk(y.X, d+1)
 				case *ssa.Phi:
-					sign = y
+					for _, ed := range y.Edges {
+						walk(ed, d+1)
+					}
 				case *ssa.Extract:
 					leaves = append(leaves, y)
 				}
 			}
 			walk(off, 0)
-			ok := sign != nil && len(leaves) == 2
+			ok := len(leaves) == 2
 			detail := ""
+			var hrs, mins *ssa.Extract
+			var zoneStr ssa.Value
 			if ok {
 				// which leaf is hours (digits [0:2] of the zone string) and which minutes ([3:5])
-				var hrs, mins *ssa.Extract
-				var zoneStr ssa.Value
 				for _, lf := range leaves {
 					call, _ := lf.Tuple.(*ssa.Call)
 					if call == nil || len(call.Call.Args) != 1 {
@@ -412,13 +435,6 @@ func ruleParseTime(c *Ctx) {
 					ok = false
 					detail = "hours are not the zone's digits [0:2] and minutes [3:5]"
 				} else {
-					for _, t := range []struct{ s, h, m, want int64 }{{1, 1, 0, 3600}, {1, 0, 1, 60}, {-1, 2, 30, -9000}} {
-						got, okE := evalLinear(off, map[ssa.Value]int64{sign: t.s, hrs: t.h, mins: t.m}, 0)
-						if !okE || got != t.want {
-							ok = false
-							detail = fmt.Sprintf("offset(sign=%d, hh=%d, mm=%d) evaluates to %d, want %d seconds", t.s, t.h, t.m, got, t.want)
-						}
-					}
 					// the colon between them
 					colon := false
 					for _, cmp := range cmpFactsAt(gz.Block()) {
@@ -436,106 +452,185 @@ func ruleParseTime(c *Ctx) {
 					}
 				}
 			}
-			c.Check(ok, key+"/zone-offset", P.pos(gz.Pos()), "offset = sign*(hh*3600 + mm*60) with hh, mm the successfully parsed digits around a checked ':'", "the numeric zone offset is not sign*(hh*3600+mm*60) of the zone's own digits: "+detail)
-			// sign values per character: case analysis over the zone's first character. For each
-			// candidate character the tests that compare it with constants are decided, every
-			// other branch is followed both ways, and the sign phi's reachable incoming edges
-			// give the possible signs.
-			if sign != nil {
-				var cv ssa.Value
-				consts := map[int64]bool{}
-				cmpWith := map[ssa.Value]map[int64]bool{}
-				var cmpOrder []ssa.Value
-				for _, b := range fn.Blocks {
+			// the zone's first character: the value compared with '-' (and usually '+') nearest the zone lookup
+			var cv ssa.Value
+			consts := map[int64]bool{}
+			cmpWith := map[ssa.Value]map[int64]bool{}
+			var cmpOrder []ssa.Value
+			for _, b := range zfn.Blocks {
+				for _, in := range b.Instrs {
+					bo, isBo := in.(*ssa.BinOp)
+					if !isBo || bo.Op != token.EQL && bo.Op != token.NEQ {
+						continue
+					}
+					if k, isK := constInt(bo.Y); isK && (k == '+' || k == '-') {
+						x := stripConv(bo.X)
+						if cmpWith[x] == nil {
+							cmpWith[x] = map[int64]bool{}
+							cmpOrder = append(cmpOrder, x)
+						}
+						cmpWith[x][k] = true
+					}
+				}
+			}
+			for _, both := range []bool{true, false} {
+				for _, x := range cmpOrder {
+					if cv == nil && cmpWith[x]['-'] && (cmpWith[x]['+'] || !both) {
+						if in, isIn := x.(ssa.Instruction); isIn && in.Block().Dominates(gz.Block()) {
+							cv = x
+						}
+					}
+				}
+			}
+			if cv != nil {
+				for _, b := range zfn.Blocks {
 					for _, in := range b.Instrs {
-						bo, ok := in.(*ssa.BinOp)
-						if !ok || bo.Op != token.EQL && bo.Op != token.NEQ {
-							continue
-						}
-						if k, isK := constInt(bo.Y); isK && (k == '+' || k == '-') {
-							x := stripConv(bo.X)
-							if cmpWith[x] == nil {
-								cmpWith[x] = map[int64]bool{}
-								cmpOrder = append(cmpOrder, x)
-							}
-							cmpWith[x][k] = true
-						}
-					}
-				}
-				// the zone's first character is the value compared with '-' (and usually '+') nearest the zone lookup
-				for _, both := range []bool{true, false} {
-					for _, x := range cmpOrder {
-						if cv == nil && cmpWith[x]['-'] && (cmpWith[x]['+'] || !both) {
-							if in, isIn := x.(ssa.Instruction); isIn && in.Block().Dominates(gz.Block()) {
-								cv = x
+						if bo, isBo := in.(*ssa.BinOp); isBo && stripConv(bo.X) == cv {
+							if k, isK := constInt(bo.Y); isK {
+								consts[k] = true
 							}
 						}
 					}
 				}
-				if cv != nil {
-					for _, b := range fn.Blocks {
-						for _, in := range b.Instrs {
-							if bo, ok := in.(*ssa.BinOp); ok && stripConv(bo.X) == cv {
-								if k, isK := constInt(bo.Y); isK {
-									consts[k] = true
-								}
-							}
-						}
+			}
+			// offset as a function of (first character, hh, mm): comparisons of the first character are decided,
+			// a phi takes the value of its only reachable edge
+			evalCase := func(k, h, m int64) (val int64, reaches, okE bool) {
+				start := zfn.Blocks[0]
+				if in, isIn := cv.(ssa.Instruction); isIn {
+					start = in.Block()
+				}
+				edges := reachUnderCase(start, cv, k)
+				reaches = gz.Block() == start
+				for e := range edges {
+					if e[1] == gz.Block().Index {
+						reaches = true
 					}
 				}
-				okSign := cv != nil
-				table := map[string][]int64{}
-				if okSign {
-					fresh := int64('x')
-					for consts[fresh] {
-						fresh++
+				if !reaches {
+					return 0, false, true
+				}
+				var ev func(v ssa.Value, d int) (int64, bool)
+				ev = func(v ssa.Value, d int) (int64, bool) {
+					if d > 14 {
+						return 0, false
 					}
-					consts[fresh], consts['+'], consts['-'] = true, true, true
-					start := fn.Blocks[0]
-					if in, isIn := cv.(ssa.Instruction); isIn {
-						start = in.Block()
-					}
-					var ks []int64
-					for k := range consts {
-						ks = append(ks, k)
-					}
-					sort.Slice(ks, func(i, j int) bool { return ks[i] < ks[j] })
-					for _, k := range ks {
-						edges := reachUnderCase(start, cv, k)
-						var got []int64
-						unknown := false
-						for i, e := range sign.Edges {
-							if !edges[[2]int{sign.Block().Preds[i].Index, sign.Block().Index}] {
+					switch y := v.(type) {
+					case *ssa.Extract:
+						if y == hrs {
+							return h, true
+						}
+						if y == mins {
+							return m, true
+						}
+						return 0, false
+					case *ssa.Const:
+						return constInt(y)
+					case *ssa.Convert:
+						return ev(y.X, d+1)
+					case *ssa.ChangeType:
+						return ev(y.X, d+1)
+					case *ssa.UnOp:
+						if y.Op == token.SUB {
+							a, okA := ev(y.X, d+1)
+							return -a, okA
+						}
+					case *ssa.BinOp:
+						a, ok1 := ev(y.X, d+1)
+						b, ok2 := ev(y.Y, d+1)
+						if !ok1 || !ok2 {
+							return 0, false
+						}
+						switch y.Op {
+						case token.ADD:
+							return a + b, true
+						case token.SUB:
+							return a - b, true
+						case token.MUL:
+							return a * b, true
+						}
+					case *ssa.Phi:
+						n := 0
+						var res int64
+						for i, ed := range y.Edges {
+							if !edges[[2]int{y.Block().Preds[i].Index, y.Block().Index}] {
 								continue
 							}
-							if v, isK := constInt(e); isK {
-								got = append(got, v)
-							} else {
-								unknown = true
+							a, okA := ev(ed, d+1)
+							if !okA || n > 0 && a != res {
+								return 0, false
+							}
+							res = a
+							n++
+						}
+						return res, n > 0
+					}
+					return 0, false
+				}
+				val, okE = ev(off, 0)
+				return val, true, okE
+			}
+			table := map[string]string{}
+			okSign := cv != nil
+			if cv != nil && hrs != nil && mins != nil {
+				fresh := int64('x')
+				for consts[fresh] {
+					fresh++
+				}
+				consts[fresh], consts['+'], consts['-'] = true, true, true
+				var ks []int64
+				for k := range consts {
+					ks = append(ks, k)
+				}
+				sort.Slice(ks, func(i, j int) bool { return ks[i] < ks[j] })
+				for _, k := range ks {
+					name := fmt.Sprintf("%q", rune(k))
+					if k == fresh {
+						name = "other"
+					}
+					switch k {
+					case '+', '-':
+						sg := int64(1)
+						if k == '-' {
+							sg = -1
+						}
+						for _, t := range []struct{ h, m int64 }{{1, 0}, {0, 1}, {2, 30}} {
+							got, reaches, okE := evalCase(k, t.h, t.m)
+							want := sg * (t.h*3600 + t.m*60)
+							table[name] = fmt.Sprintf("offset(hh=%d, mm=%d) = %d", t.h, t.m, got)
+							if !reaches || !okE {
+								table[name] = "never reaches the zone lookup, or the offset is not an expression of the digits"
+								okSign = false
+								if k == '+' {
+									ok = false
+								}
+								break
+							}
+							if got != want {
+								if k == '+' || got != -want {
+									// wrong magnitude
+									ok = false
+									detail = fmt.Sprintf("offset(first char %s, hh=%d, mm=%d) evaluates to %d, want %d seconds", name, t.h, t.m, got, want)
+								}
+								okSign = false
 							}
 						}
-						name := fmt.Sprintf("%q", rune(k))
-						if k == fresh {
-							name = "other"
-						}
-						table[name] = got
-						switch {
-						case unknown:
+					default:
+						_, reaches, _ := evalCase(k, 1, 1)
+						table[name] = fmt.Sprintf("reaches the zone lookup: %v", reaches)
+						if reaches {
 							okSign = false
-						case k == '+':
-							okSign = okSign && len(got) > 0 && allEqual(got, 1)
-						case k == '-':
-							okSign = okSign && len(got) > 0 && allEqual(got, -1)
-						default:
-							okSign = okSign && len(got) == 0
 						}
 					}
 				}
-				c.Check(okSign, key+"/zone-sign", P.pos(sign.Pos()), "'+' -> +1, '-' -> -1, anything else never reaches the offset", fmt.Sprintf("the zone sign by first character is %v, want '+' -> 1, '-' -> -1 and nothing else", table))
+			} else {
+				ok = false
 			}
+			c.Check(ok, key+"/zone-offset", P.pos(gz.Pos()), "for '+' the offset is hh*3600 + mm*60 with hh, mm the successfully parsed digits around a checked ':'", "the numeric zone offset is not sign*(hh*3600+mm*60) of the zone's own digits: "+detail)
+			c.Check(okSign, key+"/zone-sign", P.pos(gz.Pos()), "'+' -> +offset, '-' -> -offset, anything else never reaches the zone lookup", fmt.Sprintf("the zone offset by first character is %v, want '+' -> east (positive), '-' -> west (negative) and nothing else reaching the lookup", table))
 			// 'Z' -> UTC
 			zOK := false
-			for _, s := range phiSources(full.Call.Args[7]) {
+			for _, s := range sourcesThroughCalls(P, full.Call.Args[7], 0) {
 				if ld, ok := s.(*ssa.UnOp); ok {
 					if g, ok := ld.X.(*ssa.Global); ok && g.Name() == "UTC" {
 						for _, cmp := range cmpFactsAt(ld.Block()) {
@@ -553,9 +648,41 @@ func ruleParseTime(c *Ctx) {
 	// ---- TZ-KEY
 	c.Rule("TZ-KEY", "the zone cache returns, for an offset, a fixed zone built from that same offset", 1)
 	{
-		gt := P.Func(P.Time, "getTimezone")
-		if c.Anchor(gt != nil && len(gt.Params) == 1, "time.getTimezone(offset)") {
-			off := gt.Params[0]
+		// the zone lookup: the module function (or method) of the time package that takes one integer, the
+		// offset, and returns a *time.Location
+		var gt *ssa.Function
+		var off *ssa.Parameter
+		for _, f := range P.ModuleFuncs() {
+			if f.Pkg != P.Time || f.Parent() != nil || f.Signature.Results().Len() != 1 || !strings.HasSuffix(typeKey(f.Signature.Results().At(0).Type()), "time.Location") {
+				continue
+			}
+			var ints []*ssa.Parameter
+			for i, p := range f.Params {
+				if i == 0 && f.Signature.Recv() != nil {
+					continue
+				}
+				if b, ok := p.Type().Underlying().(*types.Basic); ok && b.Info()&types.IsInteger != 0 {
+					ints = append(ints, p)
+				} else {
+					ints = append(ints, nil)
+				}
+			}
+			if len(ints) == 1 && ints[0] != nil {
+				// prefer the function that holds the cache (a map lookup) over thin wrappers of it
+				hasLookup := false
+				for _, b := range f.Blocks {
+					for _, in := range b.Instrs {
+						if _, ok := in.(*ssa.Lookup); ok {
+							hasLookup = true
+						}
+					}
+				}
+				if gt == nil || hasLookup {
+					gt, off = f, ints[0]
+				}
+			}
+		}
+		if c.Anchor(gt != nil && off != nil, "time.getTimezone(offset)") {
 			okKey, okZone, okStore := false, false, false
 			var fz *ssa.Call
 			for _, b := range gt.Blocks {
@@ -781,4 +908,69 @@ func phiFedBy(phi *ssa.Phi, v ssa.Value) bool {
 		return false
 	}
 	return walk(phi)
+}
+
+// ptScope: the parser and the same-package functions it calls, transitively
+// (the parser may be split into helpers for its parts).
+func ptScope(P *Program, fn *ssa.Function) []*ssa.Function {
+	var out []*ssa.Function
+	seen := map[*ssa.Function]bool{}
+	var add func(f *ssa.Function)
+	add = func(f *ssa.Function) {
+		if f == nil || seen[f] || f.Blocks == nil || f.Pkg != fn.Pkg {
+			return
+		}
+		seen[f] = true
+		out = append(out, f)
+		for _, cs := range callsIn(f) {
+			if cs.Static != nil {
+				add(cs.Static)
+			}
+		}
+	}
+	add(fn)
+	return out
+}
+
+// sourcesThroughCalls: phiSources of v, looking into the corresponding
+// result of module helpers the value was returned by (two levels).
+func sourcesThroughCalls(P *Program, v ssa.Value, depth int) []ssa.Value {
+	var out []ssa.Value
+	for _, s := range phiSources(v) {
+		if ex, ok := s.(*ssa.Extract); ok && depth < 2 {
+			if call, ok := ex.Tuple.(*ssa.Call); ok {
+				if g := call.Call.StaticCallee(); g != nil && P.isModuleFunc(g) && g.Blocks != nil {
+					for _, r := range returnsOf(g) {
+						rs := resolvedResults(r)
+						if ex.Index < len(rs) {
+							out = append(out, sourcesThroughCalls(P, rs[ex.Index], depth+1)...)
+						}
+					}
+					continue
+				}
+			}
+		}
+		out = append(out, s)
+	}
+	return out
+}
+
+// zoneOffsetArg: for a call of a module function returning a *time.Location
+// with exactly one integer among its (non-receiver) arguments, that argument.
+func zoneOffsetArg(call *ssa.Call) ssa.Value {
+	g := call.Call.StaticCallee()
+	if g == nil || g.Signature.Results().Len() != 1 || !strings.HasSuffix(typeKey(g.Signature.Results().At(0).Type()), "time.Location") {
+		return nil
+	}
+	args := call.Call.Args
+	if g.Signature.Recv() != nil && len(args) > 0 {
+		args = args[1:]
+	}
+	if len(args) != 1 {
+		return nil
+	}
+	if b, ok := args[0].Type().Underlying().(*types.Basic); ok && b.Info()&types.IsInteger != 0 {
+		return args[0]
+	}
+	return nil
 }
